@@ -151,6 +151,19 @@ def bodies_ok(res):
     return {i: b == "1" for i, b in zip(named, bits)}
 
 
+def theorem_scope(res):
+    """how many corpus definitions lie inside the decidable fragment of C01_derive_layer (plain_defb)"""
+    body = ("From TsRs Require Import Corr.%s Proofs.Sem_derive_proofs.\n" % res["envname"] + CR.HEADER +
+            "Eval vm_compute in (N.of_nat (length R), N.of_nat (length (filter (fun p => plain_defb (snd p)) R))).\n")
+    ok, out = vlib.coq_eval("%s_scope" % res["envname"], body, timeout=600)
+    if not ok:
+        raise vlib.HarnessError("scope file failed: " + out[-3000:])
+    m = re.search(r"=\s*\((\d+)(?:%N)?,\s*(\d+)(?:%N)?\)", out)
+    if not m:
+        raise vlib.HarnessError("scope file: unexpected output " + out[-500:])
+    return int(m.group(1)), int(m.group(2))
+
+
 def overrides(res):
     """definitions whose binding is (transitively) user-asserted: `as` / `type` anywhere below"""
     by = {d["ident"]: d for d in res["defs"]}
